@@ -77,7 +77,7 @@ func writerFingerprint(w *proto.Writer, pending []byte) uint64 {
 
 // C14 — the vectored writer emits exactly what was chained, once, in order.
 func C14(c *vk.Ctx) {
-	c.Rule("explicit-state search over all operation sequences of length <= n (quick 6, thorough 7) over the 12-operation alphabet {ChainBuffer appending 0/1/3/70 bytes, ChainWrite of a 0/1/5-byte slice, Flush to a writer that accepts everything / fails after 0, 1, 4 bytes / reports a short write} x initial buffer capacity {0, 64}; every byte is position-unique; reference model = the byte string pending since the last flush; after every Flush the bytes delivered must be exactly pending (a prefix of it when the writer failed) and nothing delivered earlier may appear again. Plus path equivalence WriteBlock+Flush = EncodeBlock on a column corpus (nine columns incl. the stateful LowCardinality / Array(LowCardinality) / Map(., LowCardinality) / JSON, with 3 rows and with zero rows). states = distinct private writer states (reflect fingerprint incl. buffer length, offset, vector shape); transitions = operations executed.")
+	c.Rule("explicit-state search over all operation sequences of length <= n (quick 6, thorough 7) over the 12-operation alphabet {ChainBuffer appending 0/1/3/70 bytes, ChainWrite of a 0/1/5-byte slice, Flush to a writer that accepts everything / fails after 0, 1, 4 bytes / reports a short write} x initial buffer capacity {0, 64}; every byte is position-unique; reference model = the byte string pending since the last flush; after every Flush the bytes delivered must be exactly pending (a prefix of it when the writer failed) and nothing delivered earlier may appear again. Plus path equivalence WriteBlock+Flush = EncodeBlock on a column corpus (twelve columns incl. strings of 1 KiB / 4 KiB / 70 KB followed by rows of other lengths, bare, in an array and as dictionary values, and the stateful LowCardinality / Array(LowCardinality) / Map(., LowCardinality) / JSON, with 3 rows and with zero rows). states = distinct private writer states (reflect fingerprint incl. buffer length, offset, vector shape); transitions = operations executed.")
 	depth := 6
 	if !c.Quick() {
 		depth = 7
@@ -213,9 +213,18 @@ func C14(c *vk.Ctx) {
 			mlc.AppendKV([]proto.KV[string, string]{{Key: "k2", Value: "v"}})
 			js := new(proto.ColJSONStr)
 			js.AppendArr([]string{"{}", "{\"a\":1}", "[]"})
+			// rows on both sides of size steps a vectored writer may key on (1 KiB, 4 KiB, 64 KiB),
+			// each followed by a row of another length
+			big := new(proto.ColStr)
+			big.AppendArr([]string{strings.Repeat("a", 1023) + "|", strings.Repeat("b", 4097), strings.Repeat("c", 70000)})
+			bigArr := proto.NewArray[string](new(proto.ColStr))
+			bigArr.AppendArr([][]string{{strings.Repeat("d", 1024), "x"}, {}, {strings.Repeat("e", 2000), strings.Repeat("f", 1025), ""}})
+			bigLC := proto.NewLowCardinality[string](new(proto.ColStr))
+			bigLC.AppendArr([]string{strings.Repeat("g", 1500), "k", strings.Repeat("h", 1024)})
 			input = append(input, proto.InputColumn{Name: "u", Data: &u}, proto.InputColumn{Name: "s", Data: s}, proto.InputColumn{Name: "f", Data: f},
 				proto.InputColumn{Name: "lc", Data: lc}, proto.InputColumn{Name: "arr", Data: arr}, proto.InputColumn{Name: "nu", Data: nu},
-				proto.InputColumn{Name: "alc", Data: alc}, proto.InputColumn{Name: "mlc", Data: mlc}, proto.InputColumn{Name: "js", Data: js})
+				proto.InputColumn{Name: "alc", Data: alc}, proto.InputColumn{Name: "mlc", Data: mlc}, proto.InputColumn{Name: "js", Data: js},
+				proto.InputColumn{Name: "big", Data: big}, proto.InputColumn{Name: "bigArr", Data: bigArr}, proto.InputColumn{Name: "bigLC", Data: bigLC})
 			if rows == 0 {
 				for _, in := range input {
 					in.Data.(proto.Resettable).Reset()
